@@ -7,7 +7,8 @@
 //	C <id> http ka=<ms> wt=<ms>       a real nbhttp engine on a loopback socket, raw TCP client (keep-alive, WriteTimeout)
 //	C <id> dial                       real engine, DialAsyncTimeout to a live / a dead loopback port (the dial timer lives in the
 //	                                  write timer and must be cleared by a successful connect); ops dial <ms> live|refused, set, clear, close
-//	C <id> ws ka=<ms>                 the same engine with a websocket upgrader (WS keep-alive), raw client
+//	C <id> ws ka=<ms> wska=<ms>       the same engine (HTTP keep-alive ka) with a websocket upgrader (WS keep-alive wska,
+//	                                  default ka; 0 = none: the upgrade clears the HTTP keep-alive deadline), raw client
 //	C <id> wst ka=<ms>                std http.Server + UpgradeAndTransferConnToPoller (WS keep-alive on the transferred path)
 //
 // ops (t=<ms> is the planned offset from the start of the case; the executor never runs an op early):
@@ -271,12 +272,18 @@ func genHTTP(g *lp.Gen, id int) {
 func genWS(g *lp.Gen, id int) {
 	ka := g.PickInt(120, 160, 200, 300)
 	t := 0
+	// wska = the Upgrader's KeepaliveTime; 0 (one case in three): the upgrade must CLEAR the HTTP engine's keep-alive
+	// read deadline (ka), and nothing renews or re-arms it afterwards: the websocket conn outlives ka
+	wska := ka
+	if g.Chance(1, 3) {
+		wska = 0
+	}
 	if g.Chance(1, 3) {
 		// the transferred path: std http.Server, UpgradeAndTransferConnToPoller
-		g.P("C %d wst ka=%d wt=0", id, ka)
+		g.P("C %d wst ka=%d wska=%d wt=0", id, ka, wska)
 		g.P("O tconn t=%d", t)
 	} else {
-		g.P("C %d ws ka=%d wt=0", id, ka)
+		g.P("C %d ws ka=%d wska=%d wt=0", id, ka, wska)
 		g.P("O conn t=%d", t)
 	}
 	t += g.PickInt(5, 20, 40)
@@ -587,7 +594,11 @@ func runCase(cr *caseRun) {
 	case "dial":
 		doOp, cleanup = setupDial(e)
 	case "http", "ws", "wst":
-		doOp, cleanup = setupE2E(e, kind, atoi(field(head, "ka")), atoi(field(head, "wt")))
+		wska := atoi(field(head, "ka"))
+		if v := field(head, "wska"); v != "" {
+			wska = atoi(v)
+		}
+		doOp, cleanup = setupE2E(e, kind, atoi(field(head, "ka")), atoi(field(head, "wt")), wska)
 	default:
 		for range cr.lines[1:] {
 			fmt.Fprintf(&cr.out, "> bad\nbad-case\n")
@@ -960,8 +971,9 @@ func setupDial(e *env) (func(ws []string), func()) {
 
 // ---- end-to-end cases (HTTP keep-alive / WriteTimeout, WS keep-alive) over loopback
 
-func setupE2E(e *env, kind string, kaMs, wtMs int) (func(ws []string), func()) {
+func setupE2E(e *env, kind string, kaMs, wtMs, wskaMs int) (func(ws []string), func()) {
 	ka := time.Duration(kaMs) * time.Millisecond
+	wska := time.Duration(wskaMs) * time.Millisecond
 	wt := time.Duration(wtMs) * time.Millisecond
 	mux := http.NewServeMux()
 	mux.HandleFunc("/small", func(w http.ResponseWriter, r *http.Request) { _, _ = w.Write([]byte("hello")) })
@@ -972,7 +984,7 @@ func setupE2E(e *env, kind string, kaMs, wtMs int) (func(ws []string), func()) {
 		_, _ = w.Write(big)
 	})
 	up := websocket.NewUpgrader()
-	up.KeepaliveTime = ka
+	up.KeepaliveTime = wska
 	up.OnMessage(func(c *websocket.Conn, mt websocket.MessageType, data []byte) { _ = c.WriteMessage(mt, data) })
 	mux.HandleFunc("/ws", func(w http.ResponseWriter, r *http.Request) {
 		if kind == "wst" {
@@ -1024,6 +1036,7 @@ func setupE2E(e *env, kind string, kaMs, wtMs int) (func(ws []string), func()) {
 	var br *bufio.Reader
 	tr := &e.tr
 	kaUs, wtUs := int64(ka/time.Microsecond), int64(wt/time.Microsecond)
+	wskaUs := int64(wska / time.Microsecond)
 	do := func(ws []string) {
 		t0 := e.us()
 		switch ws[1] {
@@ -1099,7 +1112,11 @@ func setupE2E(e *env, kind string, kaMs, wtMs int) (func(ws []string), func()) {
 				time.Sleep(time.Millisecond)
 			}
 			time.Sleep(2 * time.Millisecond)
-			tr.set(0, t0+kaUs, e.us()+kaUs, t0)
+			if wskaUs > 0 {
+				tr.set(0, t0+wskaUs, e.us()+wskaUs, t0)
+			} else {
+				tr.clear(0, t0) // Upgrader.KeepaliveTime == 0: the HTTP keep-alive deadline is cleared, none is in force
+			}
 		case "msg":
 			if cli == nil {
 				return
@@ -1114,8 +1131,8 @@ func setupE2E(e *env, kind string, kaMs, wtMs int) (func(ws []string), func()) {
 				return
 			}
 			time.Sleep(2 * time.Millisecond) // the renewal runs after the handler returned
-			if c := e.nbc(); c != nil && !c.VerifState().Closed {
-				tr.set(0, t0+kaUs, e.us()+kaUs, t0)
+			if c := e.nbc(); c != nil && !c.VerifState().Closed && wskaUs > 0 {
+				tr.set(0, t0+wskaUs, e.us()+wskaUs, t0)
 			}
 		case "ping":
 			if cli == nil {
@@ -1130,8 +1147,8 @@ func setupE2E(e *env, kind string, kaMs, wtMs int) (func(ws []string), func()) {
 				return
 			}
 			time.Sleep(2 * time.Millisecond) // the renewal runs after the handler returned
-			if c := e.nbc(); c != nil && !c.VerifState().Closed {
-				tr.set(0, t0+kaUs, e.us()+kaUs, t0)
+			if c := e.nbc(); c != nil && !c.VerifState().Closed && wskaUs > 0 {
+				tr.set(0, t0+wskaUs, e.us()+wskaUs, t0)
 			}
 		case "pong":
 			if cli == nil {
@@ -1143,8 +1160,8 @@ func setupE2E(e *env, kind string, kaMs, wtMs int) (func(ws []string), func()) {
 			}
 			// nothing comes back for an unsolicited pong: give the poller and the handler a moment
 			time.Sleep(4 * time.Millisecond)
-			if c := e.nbc(); c != nil && !c.VerifState().Closed {
-				tr.set(0, t0+kaUs, e.us()+kaUs, t0)
+			if c := e.nbc(); c != nil && !c.VerifState().Closed && wskaUs > 0 {
+				tr.set(0, t0+wskaUs, e.us()+wskaUs, t0)
 			}
 		case "wait":
 		}
